@@ -15,7 +15,9 @@ RULE = ("six representative #[derive(JominiDeserialize)] structs compiled into t
         "accepted combination, token + alias/deserialize_with/default fn, Vec<[T;N]> arm, one type parameter with and without where clause / inline bound, "
         "Cow fields, fields named like another field's alias, second alias, default/take_last/duplicated combinations, nested generic derived structs) through "
         "the same seven paths against the field semantics (attrs_paths); perm: one document in three orders that keep each field's own sequence, outputs "
-        "must be equal (no model, no spec; token structs get the same field by id and by name); intkeys: unknown fields with integer-token keys in binary")
+        "must be equal (no model, no spec; token structs get the same field by id and by name); intkeys: unknown fields with integer-token keys in binary.  "
+        "Wave 6 (props/C18_sizes.py): ladder streams, one size dimension at a time up to 4097 / 65537 (occurrences of one field, fields per struct 1..65, "
+        "unknown fields, nesting depth of unknown values and of derived structs, alias / name lengths to 65535 / 1025, token ids over the u16 range, attribute lists 1..3)")
 TRUSTED = ["the proc-macro expansion itself is tied by correspondence only (no macro expansion tool offline): Derive.visit models the code "
            "that jomini_derive/src/lib.rs generates", "serde's primitive visitors and IgnoredAny"]
 ASSUMPTIONS = ["an `alias` replaces the field's own name (the generated visit_str matches the alias only): the own name is then an unknown field",
